@@ -225,7 +225,7 @@ def main():
 
     # 2. prove
     modules = P['modules']
-    ok, blog, bsecs = lake_build(modules + ['driver'])
+    ok, blog, bsecs = lake_build(modules + ['Decaf.AuditCmd', 'driver'])
     failed_thms = []
     if not ok:
         errs = lean_errors(blog)
